@@ -283,8 +283,16 @@ struct FakeSrv : Monitor {
 			if (odd) { std::string k2 = "fake.odd."; k2 += u.cmd; w->probes[k2]++; }
 			p = plausible(u, m, qn, rr, odd, enc);
 		}
+		// a reply that is the beginning of the previous reply to the same command: whatever that one left behind in the client's
+		// buffer completes it again (the client must compare only what this reply brought)
+		if (u.cmd != 'p' && u.cmd != 'd' && u.cmd != 'v' && u.cmd != 'l') {
+			auto lp = last_payload.find(u.cmd);
+			if (lp != last_payload.end() && lp->second.size() >= 3 && rr.chance(p_fields * 0.5)) { p.assign(lp->second.begin(), lp->second.begin() + (long)rr.range(1, (int64_t)lp->second.size() - 1)); w->probes["fake.prefix_of_previous"]++; }
+			else last_payload[u.cmd] = p;
+		}
 		reply(d, build_answer(m.id, qn, m.qd[0].type, p, enc));
 	}
+	std::map<char, Bytes> last_payload;
 };
 
 World *build_fakesrv(const J &plan)
